@@ -1041,7 +1041,7 @@ impl Hist {
                     format!("{} {} {}", r.pick(&[0u64, 1, 100, 300, 5000, 9999, 10000]), r.pick(&[0u64, 1, 5000, 1_000_000, u64::MAX]), b(r.chance(1, 2)))
                 };
                 let (fa, fb) = (fee(r), fee(r));
-                let auth = r.pick(&[0u8, 0, 0, 0, 0, 0, 0, 1, 2, 3, 4]);
+                let auth = r.pick(&[0u8, 0, 0, 0, 0, 0, 0, 1, 2, 3, 4, 5]);
                 format!("H xliq {} {} {} {} {} {} {} {}", ver, id, b(inc), liq, r.pick(&[0u8, 0, 1, 2]), fa, fb, auth)
             }
             45 => if r.chance(1, 4) { format!("H xsub grid 0 {} 0", id) } else { format!("H xsub {} {} {} {}", if r.chance(1, 2) { "swap" } else if r.chance(1, 2) { "liq" } else { "dec" }, r.below(15), id, if r.chance(1, 2) { 0 } else { 1 + r.below(6) }) },
@@ -1064,7 +1064,7 @@ impl Hist {
                     format!("{} {} {}", r.pick(&[0u64, 1, 100, 300, 5000, 9999, 10000]), r.pick(&[0u64, 1, 5000, 1_000_000, u64::MAX]), b(r.chance(1, 2)))
                 };
                 let (fa, fb) = (fee(r), fee(r));
-                let auth = r.pick(&[0u8, 0, 0, 0, 0, 1, 2, 3, 4, 5, 6]);
+                let auth = r.pick(&[0u8, 0, 0, 0, 0, 1, 2, 3, 4, 5, 6, 7]);
                 let ts = wp.tick_spacing;
                 let (a1, a2) = if kind == "reset" {
                     match r.below(6) {
@@ -1107,7 +1107,7 @@ impl Hist {
                     2 => (0, price.saturating_sub(1)),
                     _ => (0u128, u128::MAX),
                 };
-                let auth = r.pick(&[0u8, 0, 0, 0, 0, 0, 0, 1, 2, 3, 4]);
+                let auth = r.pick(&[0u8, 0, 0, 0, 0, 0, 0, 1, 2, 3, 4, 5]);
                 format!("H xliqt {} {} {} {} {} {} {} {}", id, amt(r), amt(r), minp, maxp, fa, fb, auth)
             }
             48 | 53 | 54 => {
@@ -1147,7 +1147,7 @@ impl Hist {
                     3 => p.liquidity.saturating_mul(2).max(1),
                     _ => r.log_u128(70).max(1),
                 };
-                let auth = r.pick(&[0u8, 0, 0, 0, 0, 0, 0, 1, 2, 3, 4]);
+                let auth = r.pick(&[0u8, 0, 0, 0, 0, 0, 0, 1, 2, 3, 4, 5]);
                 format!("H xrepo {} {} {} {} {} {} {} {}", id, nlo, nhi, new_liq, r.pick(&[0u8, 0, 1, 2, 3, 4, 5]), fa, fb, auth)
             }
             49 if r.chance(1, 2) => {
@@ -1173,7 +1173,7 @@ impl Hist {
                 } else {
                     0
                 };
-                let auth = r.pick(&[0u8, 0, 0, 0, 0, 1, 2, 3, 4]);
+                let auth = if kind == "crew" && r.chance(1, 8) { 5 } else { r.pick(&[0u8, 0, 0, 0, 0, 1, 2, 3, 4]) };
                 format!("H xrew {} {} {} {} {} {} {} {}", kind, if r.chance(1, 2) { 1 } else { 2 }, idx, id, auth, value, fa, fb)
             }
             49 => {
@@ -1181,7 +1181,7 @@ impl Hist {
                 let follow = r.pick(&["none", "dec", "close", "reset", "repo", "inc", "cf", "xfer", "lock2", "xferm", "xfers", "xferl"]);
                 let withliq: Vec<u32> = ids.iter().copied().filter(|i| w.pos(*i).map(|q| q.liquidity > 0).unwrap_or(false)).collect();
                 let id = if !withliq.is_empty() && r.chance(4, 5) { r.pick(&withliq) } else { id };
-                format!("H xlock {} {} {}", id, r.pick(&[0u8, 0, 0, 0, 0, 0, 0, 1, 2, 3, 4, 5]), follow)
+                format!("H xlock {} {} {}", id, r.pick(&[0u8, 0, 0, 0, 0, 0, 0, 1, 2, 3, 4, 5, 6]), follow)
             }
             50..=52 => format!("H cfees {}", id),
             55..=57 => "H cproto".to_string(),
